@@ -29,6 +29,7 @@ def generate(rng):
     scn['as'] = rng.choice(['list', 'dict', 'dict'])
     scn['withexitstatus'] = rng.random() < 0.6
     scn['code'] = rng.choice([0, 1, 42, 255])
+    scn['hup_write'] = rng.choice(['ok', 'ok', 'ok', 'eio'])
     if rng.random() < 0.3:
         scn['tear'] = [rng.choice([0, 1, 2, 7]) for _ in range(rng.randint(1, 4))]
     toks = ['Q1?', 'Q2?', 'Q3?']
@@ -297,7 +298,7 @@ def run(scn):
                     rs = e['resp']
                     if rs['kind'] == 'str' or rs.get('ret') == 'str':
                         exp += rs['v'].encode('latin-1')
-                sent = bytes(r.pty.in_log)
+                sent = bytes(r.pty.in_log) + bytes(r.pty.discard_log)
                 if sent != exp:
                     out.append(Violation('C12.response', 'bytes sent to the child differ from the responses of the events that fired, in order',
                                          None, dict(det, sent=sent[:200], expected=exp[:200])))
